@@ -45,6 +45,9 @@ def gen(rng):
         cname = rng.choice(list(CLASSES)[:5]) if i == 0 and rng.random() < 0.8 else rng.choice(list(CLASSES))
         can, nsrc, nout = CLASSES[cname]
         f = {'cls': cname, 'can': can, 'id': f'n{i}' if rng.random() < 0.4 else None, 'refs': [], 'extra': []}
+        if rng.random() < 0.06:
+            # a user id that looks like an auto-generated one (class name, optionally with a digit): legal unless it collides
+            f['id'] = short(rng.choice(list(CLASSES))) + rng.choice(['', '', '1', '2'])
         # outputs
         r = rng.random()
         if nout:
@@ -302,6 +305,8 @@ def judge(fl, ids, argv, out, ipc):
 def run_case(parse_filters, rng, res, spec_extra):
     fl, bad = gen(rng)
     ids = expected_ids(fl)
+    if len(set(ids)) != len(ids) and not bad:
+        bad = 'dup-id-auto'          # a user id collides with an automatically assigned one: must be rejected like any duplicate
     argv = render(fl, ids, rng)
     ipc = rng.random() < 0.4
     res.evaluations += 1
